@@ -3,7 +3,7 @@
    splitter, for an arbitrary sequence of blocks read from gpg's stdout and an arbitrary request-size limit. *)
 From Coq Require Import List Arith NArith Bool.
 Import ListNotations.
-Require Import Chunk Splitter Splitter3 Md5 Compose Compose2 Compose3.
+Require Import Chunk Splitter Splitter3 Md5 Compose Compose2 Compose3 Compose4.
 Require Providers2 Dropbox2.
 
 (* limited requests (Dropbox): the request bodies are the stream cut at the limit, in order, at contiguous offsets from 0;
@@ -78,7 +78,38 @@ Check C04_honest_upload_publishes_stream :
                (cevs_of (from_off 0 (chunks m (concat blocks))) (length (concat blocks)) (spec H blk (concat blocks))) s = (s', true) /\
              Dropbox2.dfinal s' = Some (concat blocks) /\ Dropbox2.dtemp s' = None.
 
+(* the same for the single streamed body of Yandex Disk and Google Drive: whatever the server answers, a changed final name holds
+   exactly the encryptor's output, and the server's checksum of it is the MD5 vsb computed *)
+Theorem C04_yandex_final_object_is_stream : forall (Hmd5 : list N -> list N) (beqb : Providers2.bytes -> Providers2.bytes -> bool),
+  (forall a b, reflect (a = b) (beqb a b)) ->
+  forall reply Hsrv polls data s s' res, data <> [] ->
+  Providers2.yandex reply Hsrv beqb polls (cevs_of (one_body 0 data) (length data) (Hmd5 data)) s = (s', res) ->
+  Providers2.yfinal s' <> Providers2.yfinal s ->
+  Providers2.yfinal s' = Some data /\ res = true /\ Hsrv data = Hmd5 data.
+Proof. exact yandex_final_object_is_stream. Qed.
+Check C04_yandex_final_object_is_stream : forall (Hmd5 : list N -> list N) (beqb : Providers2.bytes -> Providers2.bytes -> bool),
+  (forall a b, reflect (a = b) (beqb a b)) ->
+  forall reply Hsrv polls data s s' res, data <> [] ->
+  Providers2.yandex reply Hsrv beqb polls (cevs_of (one_body 0 data) (length data) (Hmd5 data)) s = (s', res) ->
+  Providers2.yfinal s' <> Providers2.yfinal s ->
+  Providers2.yfinal s' = Some data /\ res = true /\ Hsrv data = Hmd5 data.
+Theorem C04_google_final_object_is_stream : forall (Hmd5 : list N -> list N) (beqb : Providers2.bytes -> Providers2.bytes -> bool),
+  (forall a b, reflect (a = b) (beqb a b)) ->
+  forall reply Hsrv data s s' res, data <> [] ->
+  Providers2.google reply Hsrv beqb (cevs_of (one_body 0 data) (length data) (Hmd5 data)) s = (s', res) ->
+  Providers2.gfinal s' <> Providers2.gfinal s ->
+  Providers2.gfinal s' = Providers2.gfinal s ++ [data] /\ res = true /\ Hsrv data = Hmd5 data.
+Proof. exact google_final_object_is_stream. Qed.
+Check C04_google_final_object_is_stream : forall (Hmd5 : list N -> list N) (beqb : Providers2.bytes -> Providers2.bytes -> bool),
+  (forall a b, reflect (a = b) (beqb a b)) ->
+  forall reply Hsrv data s s' res, data <> [] ->
+  Providers2.google reply Hsrv beqb (cevs_of (one_body 0 data) (length data) (Hmd5 data)) s = (s', res) ->
+  Providers2.gfinal s' <> Providers2.gfinal s ->
+  Providers2.gfinal s' = Providers2.gfinal s ++ [data] /\ res = true /\ Hsrv data = Hmd5 data.
+
 Print Assumptions C04_upload_stream_exact.
 Print Assumptions C04_upload_stream_exact_unlimited.
 Print Assumptions C04_final_object_is_stream.
 Print Assumptions C04_honest_upload_publishes_stream.
+Print Assumptions C04_yandex_final_object_is_stream.
+Print Assumptions C04_google_final_object_is_stream.
